@@ -520,6 +520,9 @@ def run(ctx):
                                    det_key=(prql, c.db) if det else None)
             elif len(ctx.samples) < 5 and rows:
                 ctx.sample({"kind": kind, "rewritten": prql.split("}\n", 1)[-1], "rows": rows[:2]})
+    # directed: a sorted prefix named ONCE and read TWICE (main pipeline + join / append argument), each reader taking rows
+    import sharedlet
+    sharedlet.run(ctx)
     ctx.obligation("oracle: every rewrite leaves the executed result unchanged (all unlisted cases)", not ctx.violations, "")
 
 
